@@ -259,8 +259,9 @@ def confirm(chk, mine, steps, inits, domain_path, byw):
 # allocator-level configurations that also decide predicates of these properties (AllocTrace.tla:
 # C07.FailOnlyIfEmpty, C03.AdditionalKeeps)
 ALLOC_LEVEL = {
-    "C07": {"quick": [("AllocMC_policy2.cfg", "edges"), ("AllocMC_policyS.cfg", "edges")],
-            "thorough": [("AllocMC_policy2.cfg", "edges"), ("AllocMC_policyS.cfg", "edges"), ("AllocMC_policy_sim.cfg", "sim")]},
+    "C07": {"quick": [("AllocMC_policy2.cfg", "edges"), ("AllocMC_policyS.cfg", "edges"), ("AllocMC_fpshare.cfg", "edges")],
+            "thorough": [("AllocMC_policy2.cfg", "edges"), ("AllocMC_policyS.cfg", "edges"), ("AllocMC_fpshare.cfg", "edges"),
+                         ("AllocMC_policy_sim.cfg", "sim")]},
     "C03": {"quick": [("AllocMC_policy2.cfg", "edges")],
             "thorough": [("AllocMC_policy2.cfg", "edges"), ("AllocMC_policy_sim.cfg", "sim")]},
 }
